@@ -205,13 +205,32 @@ pub fn install_emit_handler() {
     })));
 }
 
-/// Number of long-lived tasks on the current runtime (one execution per runtime, one runtime at
-/// a time per process). Set when a node finishes opening; engines that start further long-lived
-/// tasks (matchers, full agents) call `rebaseline()` at a point where nothing transient runs.
-pub static BASELINE: AtomicU64 = AtomicU64::new(0);
+/// Number of long-lived tasks on the current runtime. Set when a node finishes opening (no
+/// transient task runs then); several nodes sharing one runtime share this value, a node with a
+/// runtime of its own (`RtNode`) has its own. Engines that start further long-lived tasks
+/// (matchers, listeners) call `rebaseline()` at a point where nothing transient runs.
+thread_local! {
+    static _UNUSED: () = const { () };
+}
+pub static BASELINES: std::sync::Mutex<Vec<(tokio::runtime::Id, u64)>> = std::sync::Mutex::new(Vec::new());
 
 pub fn rebaseline() {
-    BASELINE.store(alive_tasks() as u64, Ordering::SeqCst);
+    let id = tokio::runtime::Handle::current().id();
+    let n = alive_tasks() as u64;
+    let mut g = BASELINES.lock().unwrap();
+    if let Some(e) = g.iter_mut().find(|e| e.0 == id) {
+        e.1 = n;
+    } else {
+        if g.len() > 64 {
+            g.remove(0);
+        }
+        g.push((id, n));
+    }
+}
+
+pub fn baseline() -> usize {
+    let id = tokio::runtime::Handle::current().id();
+    BASELINES.lock().unwrap().iter().find(|e| e.0 == id).map(|e| e.1 as usize).unwrap_or(0)
 }
 
 pub fn alive_tasks() -> usize {
@@ -372,7 +391,7 @@ impl Node {
     }
 
     pub async fn quiesce(&self) {
-        wait_tasks(BASELINE.load(Ordering::SeqCst) as usize).await
+        wait_tasks(baseline()).await
     }
 
     pub async fn checkpoint_truncate(&self) {
@@ -645,5 +664,56 @@ pub fn empty(actor: ActorId, versions: RangeInclusive<u64>) -> ChangeV1 {
             versions: CrsqlDbVersion(*versions.start())..=CrsqlDbVersion(*versions.end()),
             ts: None,
         },
+    }
+}
+
+/// A node with a tokio runtime of its own, driven from a plain thread. Dropping it kills every
+/// task of the node at once (that is what a crash does); `restart` reopens the same files.
+pub struct RtNode {
+    rt: Option<tokio::runtime::Runtime>,
+    node: Option<Node>,
+    pub db_path: PathBuf,
+    pub opts: NodeOpts,
+}
+
+impl RtNode {
+    pub fn open(db_path: &Path, opts: NodeOpts) -> RtNode {
+        let rt = new_runtime(2);
+        let node = rt.block_on(Node::open(db_path, opts.clone()));
+        RtNode { rt: Some(rt), node: Some(node), db_path: db_path.to_path_buf(), opts }
+    }
+    pub fn run<R>(&mut self, f: impl AsyncFnOnce(&mut Node) -> R) -> R {
+        let rt = self.rt.as_ref().unwrap();
+        let node = self.node.as_mut().unwrap();
+        rt.block_on(f(node))
+    }
+    pub fn node(&self) -> &Node {
+        self.node.as_ref().unwrap()
+    }
+    /// Abrupt stop: memory and every task gone, files as they are.
+    pub fn crash(&mut self) {
+        let node = self.node.take();
+        let rt = self.rt.take();
+        // drop the node inside its runtime context (pool drops may need one), then the runtime
+        if let (Some(node), Some(rt)) = (node, rt) {
+            {
+                let _g = rt.enter();
+                drop(node);
+            }
+            rt.shutdown_timeout(Duration::from_secs(5));
+        }
+    }
+    pub fn restart(&mut self) {
+        self.crash();
+        let rt = new_runtime(2);
+        let node = rt.block_on(Node::open(&self.db_path, self.opts.clone()));
+        self.rt = Some(rt);
+        self.node = Some(node);
+    }
+}
+
+impl Drop for RtNode {
+    fn drop(&mut self) {
+        self.crash();
     }
 }
